@@ -56,19 +56,81 @@ def introspect():
             labels = _labels_of(cls)
         sets.append((cls.set_type, cls.logical_record_type.value, bool(cls.is_eflr), labels, cls.__name__))
     t['sets'] = sets
+    t['attrs'] = attr_schema()
+    t['enums'] = enum_tables()
     return t
 
 
-def _labels_of(set_cls):
-    """Instantiate one item of the set's item type inside a throw-away set and read its template labels."""
+def _probe(set_cls):
     from dliswriter.logical_record import eflr_types
     s = set_cls()
     item_cls = set_cls.item_type
     if item_cls is eflr_types.OriginItem:
-        it = item_cls('X', parent=s, origin_reference=1, file_set_number=1, creation_time='2000/01/01 00:00:00')
-    else:
-        it = item_cls('X', parent=s)
-    return [a.label for a in it.attributes.values()]
+        return item_cls('X', parent=s, origin_reference=1)
+    return item_cls('X', parent=s)
+
+
+def _labels_of(set_cls):
+    """Instantiate one item of the set's item type inside a throw-away set and read its template labels."""
+    return [a.label for a in _probe(set_cls).attributes.values()]
+
+
+def _enum_of(a):
+    from dliswriter.utils.internal.validator_enum import ValidatorEnum
+    conv = a._converter
+    if conv is None or not getattr(conv, '__closure__', None):
+        return None
+    for cell in conv.__closure__:
+        try:
+            c = cell.cell_contents
+        except ValueError:
+            continue
+        if isinstance(c, type) and issubclass(c, ValidatorEnum):
+            soft = any(isinstance(getattr(x, 'cell_contents', None), bool) for x in conv.__closure__)
+            return c
+    return None
+
+
+def attr_schema():
+    """per set type: [(label, python name, attribute class, fixed repr code or 0, multivalued, multidimensional,
+    units settable, detail)] where detail = enum name / referenced item class / int_only / allow_float flags"""
+    from dliswriter.logical_record import eflr_types
+    out = []
+    for cls in eflr_types.eflr_sets:
+        if cls is eflr_types.FileHeaderSet:
+            continue
+        it = _probe(cls)
+        rows = []
+        for pyname, a in it.attributes.items():
+            rc = a._representation_code
+            detail = []
+            en = _enum_of(a)
+            if en is not None:
+                detail.append('enum=' + en.__name__)
+            oc = getattr(a, '_object_class', None)
+            if oc is not None:
+                detail.append('ref=' + oc.set_type if isinstance(oc.set_type, str) else 'ref=*')
+            if getattr(a, '_int_only', False):
+                detail.append('int_only')
+            if getattr(a, '_float_only', False):
+                detail.append('float_only')
+            if getattr(a, '_allow_float', False):
+                detail.append('allow_float')
+            rows.append((a.label, pyname, type(a).__name__, 0 if rc is None else int(rc.value), bool(a.multivalued),
+                         bool(a.multidimensional), bool(a._units_settable), ';'.join(detail)))
+        out.append((cls.set_type, rows))
+    return out
+
+
+def enum_tables():
+    from dliswriter.utils import enums
+    from dliswriter.utils.internal.validator_enum import ValidatorEnum
+    out = []
+    for name in sorted(dir(enums)):
+        c = getattr(enums, name)
+        if isinstance(c, type) and issubclass(c, ValidatorEnum) and c is not ValidatorEnum:
+            out.append((name, [m.value for m in c]))
+    return out
 
 
 def render(t):
@@ -99,6 +161,19 @@ def render(t):
     for st, ty, e, labels, _ in t['sets']:
         rows.append(f'  ({lstr(st)}, {ty}, {"true" if e else "false"}, ' + lean_list([lstr(l) for l in labels]) + ')')
     L.append(',\n'.join(rows))
+    L.append(']')
+    L.append('/-- per set type: (label, python name, attribute class, fixed repcode or 0, multivalued, multidimensional, units settable, detail) -/')
+    L.append('def attrs : List (String × List (String × String × String × Nat × Bool × Bool × Bool × String)) := [')
+    rows = []
+    b = lambda x: 'true' if x else 'false'
+    for st, ats in t['attrs']:
+        rows.append(f'  ("{st}", [' + ', '.join(
+            f'("{l}", "{p}", "{c}", {rc}, {b(mv)}, {b(md)}, {b(us)}, "{d}")' for l, p, c, rc, mv, md, us, d in ats) + '])')
+    L.append(',\n'.join(rows))
+    L.append(']')
+    L.append('/-- enumerations of utils/enums.py: (class name, member values) -/')
+    L.append('def enums : List (String × List String) := [')
+    L.append(',\n'.join(f'  ("{n}", [' + ', '.join('"' + v.replace('\\', '\\\\').replace('"', '\\"') + '"' for v in vs) + '])' for n, vs in t['enums']))
     L.append(']')
     L.append('end Dlis.Generated')
     return '\n'.join(L) + '\n'
